@@ -75,7 +75,7 @@ class BoxEngine(Engine):
             'with an independent 3x3+origin model and (in 3 runs of 4) converted both ways on fixed points, so '
             'the reciprocal cache is usually warm when the vectors next change. Cells: right-handed, lengths '
             'over 14 decades of scale, angles 30-150 deg or LAMMPS tilts up to 1.2 box lengths, origin within '
-            '3 cell sizes; general (rotated) cells for the vector family. A run is non-trivial when it '
+            '3 cell sizes; general (rotated) cells for the vector family. Whole-number lengths and angles also arrive as Python ints or as elements of integer arrays (8 to 64 bit). A run is non-trivial when it '
             'contains a fired fault or >= 2 state-changing operations; distinct = distinct (previous op, op, '
             'variant, cache-warm, cell-class, refused) signatures over non-trivial runs.')
     tolerances = {'vects_origin_abs': '4e-9*max|vects| (the setter zeroes entries below 1e-9*max by design)',
